@@ -6,7 +6,7 @@ from hypothesis import strategies as st
 import ast as pyast
 
 from pbt import coretree as ct
-from pbt import exprgen, rustdebug as rd
+from pbt import exprgen, pyoracle, rustdebug as rd
 from pbt.worker import outcome
 
 BATCH = 400
@@ -40,8 +40,105 @@ def _spec_strategy(draw, max_depth, budget=None):
     return (idx, kids)
 
 
+# ---- nested collections in statement contexts (grouping that lives in the converter's state, not in the printer) ---------------
+def _nest_type(draw, depth):
+    k = draw(st.sampled_from(["int", "tup2", "tup2", "tup3", "list"])) if depth > 0 else "int"
+    if k == "int":
+        return "Int"
+    if k == "list":
+        return ("list", _nest_type(draw, depth - 1))
+    return ("tup",) + tuple(_nest_type(draw, depth - 1) for _ in range(2 if k == "tup2" else 3))
+
+
+def _ty_text(t):
+    if t == "Int":
+        return "Int"
+    if t[0] == "list":
+        return "List[%s]" % _ty_text(t[1])
+    return "(%s)" % ", ".join(_ty_text(x) for x in t[1:])
+
+
+def _nest_expr(draw, t):
+    """-> (mamba text, python value) for names a=1, b=2"""
+    if t == "Int":
+        k = draw(st.sampled_from(["a", "b", "lit", "sum"]))
+        if k == "lit":
+            n = draw(st.integers(3, 9))
+            return str(n), n
+        if k == "sum":
+            return "(a + b)", 3
+        return k, {"a": 1, "b": 2}[k]
+    if t[0] == "list":
+        parts = [_nest_expr(draw, t[1]) for _ in range(draw(st.integers(1, 3)))]
+        return "[%s]" % ", ".join(p[0] for p in parts), [p[1] for p in parts]
+    parts = [_nest_expr(draw, x) for x in t[1:]]
+    return "(%s)" % ", ".join(p[0] for p in parts), tuple(p[1] for p in parts)
+
+
+@st.composite
+def _nest_case(draw):
+    t = _nest_type(draw, draw(st.integers(1, 3)))
+    if t == "Int":
+        t = ("tup", "Int", ("tup", "Int", "Int"))
+    e, v = _nest_expr(draw, t)
+    e2, v2 = _nest_expr(draw, t)
+    ty = _ty_text(t)
+    ctx = draw(st.sampled_from(["return", "return_after_stmt", "implicit", "print", "def", "argument", "return_call", "return_if",
+                                "list_element", "reassign", "method_return", "dict_conditions"]))
+    head = "def a := 1\ndef b := 2\ndef c := True\n"
+    if ctx == "return":
+        src = head + "def tf(a: Int, b: Int) -> %s =>\n    return %s\nprint(tf(1, 2))\n" % (ty, e)
+        exp = [repr(v)]
+    elif ctx == "return_after_stmt":
+        src = head + "def tf(a: Int, b: Int) -> %s =>\n    print(0)\n    return %s\nprint(tf(1, 2))\n" % (ty, e)
+        exp = ["0", repr(v)]
+    elif ctx == "implicit":
+        src = head + "def tf(a: Int, b: Int) -> %s => %s\nprint(tf(1, 2))\n" % (ty, e)
+        exp = [repr(v)]
+    elif ctx == "print":
+        src = head + "print(%s)\n" % e
+        exp = [repr(v)]
+    elif ctx == "def":
+        src = head + "def x: %s := %s\nprint(x)\n" % (ty, e)
+        exp = [repr(v)]
+    elif ctx == "argument":
+        src = head + "def g(p: %s) -> %s => p\nprint(g(%s))\n" % (ty, ty, e)
+        exp = [repr(v)]
+    elif ctx == "return_call":
+        src = head + "def g(p: %s) -> %s => p\ndef tf(a: Int, b: Int) -> %s =>\n    return g(%s)\nprint(tf(1, 2))\n" % (ty, ty, ty, e)
+        exp = [repr(v)]
+    elif ctx == "return_if":
+        src = head + "def tf(a: Int, b: Int) -> %s =>\n    return if a > b then %s else %s\nprint(tf(1, 2))\n" % (ty, e, e2)
+        exp = [repr(v2)]
+    elif ctx == "list_element":
+        src = head + "for q in [%s, %s] do print(q)\n" % (e, e2)
+        exp = [repr(v), repr(v2)]
+    elif ctx == "reassign":
+        src = head + "def x: %s := %s\nx := %s\nprint(x)\n" % (ty, e, e2)
+        exp = [repr(v2)]
+    elif ctx == "method_return":
+        src = head + "class KT(def k: Int)\n    def mt(fin self, a: Int, b: Int) -> %s =>\n        print(self.k)\n        return %s\nprint(KT(7).mt(1, 2))\n" % (ty, e)
+        exp = ["7", repr(v)]
+    else:
+        # conditions of a dict / list / set builder: a disjunction next to other conditions must stay one condition
+        lo, hi, m = draw(st.integers(1, 4)), draw(st.integers(4, 8)), draw(st.integers(2, 3))
+        kind = draw(st.sampled_from(["dict", "list", "set"]))
+        conds = ["qx > %d or qx < %d" % (hi, lo), "qx mod %d = 0" % m]
+        if draw(st.booleans()):
+            conds.reverse()
+        vals = [q for q in range(0, 12) if (q > hi or q < lo) and q % m == 0]
+        body = {"dict": "{qx => qx + 1 | qx in ql, %s}", "list": "[qx | qx in ql, %s]", "set": "{qx | qx in ql, %s}"}[kind] % ", ".join(conds)
+        qty = {"dict": "Dict[Int, Int]", "list": "List[Int]", "set": "Set[Int]"}[kind]
+        src = head + "def ql := [0, 1, 2, 3, 4, 5, 6, 7, 8, 9, 10, 11]\ndef qr: %s := %s\nfor qk in ql do\n    if qk in qr then print(qk)\n" % (qty, body)
+        exp = sorted(str(q) for q in vals)
+        return {"gen": "nest", "src": src, "ctx": ctx + ":" + kind, "expect": exp, "sorted": True, "annotate": draw(st.booleans())}
+    return {"gen": "nest", "src": src, "ctx": ctx, "expect": exp, "annotate": draw(st.booleans())}
+
+
 @st.composite
 def _case(draw, tier):
+    if draw(st.integers(0, 9)) < 2:
+        return draw(_nest_case())
     if draw(st.integers(0, 9)) < 6:
         prog = draw(exprgen.program(depth=draw(st.integers(1, 4))))
         return {"gen": "e2e", "src": prog["src"], "ctx": prog["ctx"], "ty": prog["ty"],
@@ -66,7 +163,11 @@ class C10:
             "(also missing) parentheses in 10 statement contexts (initialiser, argument, implicit return, condition, index, "
             "range bounds, reassignment, print), both annotate settings; expected tree = mamba's own parse of the text "
             "(worker op `parse`) mapped by the same table, compared with the expression found at the same site of the "
-            "emitted module.")
+            "emitted module. (nest) nested tuples / lists of tuples / call arguments in 11 statement contexts (explicit return, "
+            "implicit return, print, annotated definition, argument, returned call, if-expression branches, list elements, "
+            "reassignment, method return) and builder conditions with a disjunction next to other conditions (dict / list / set); "
+            "oracle: the values the emitted module prints are the values of the source tree (a lost pair of parentheses flattens a "
+            "tuple or regroups a condition).")
     assumptions = [
         "CPython 3.11's ast.parse defines how Python groups the printed text",
         "and/or are compared after flattening nested same-operator chains (associative in value and evaluation order)",
@@ -95,6 +196,8 @@ class C10:
         if case["gen"] == "enum":
             core = ct.build(_tuplify(case["specs"][len(case["specs"]) // 2]), ct.Namer())
             return {"gen": "enum", "example_tree": core}
+        if case["gen"] == "nest":
+            return {"gen": "nest", "ctx": case["ctx"], "annotate": case["annotate"], "program": case["src"][-300:]}
         if case["gen"] == "e2e":
             return {"gen": "e2e", "ctx": case["ctx"], "annotate": case["annotate"],
                     "statement": case["src"][len(exprgen.PRELUDE):]}
@@ -140,7 +243,33 @@ class C10:
                     "expected": repr(want), "parsed": repr(got)}
         return None
 
+    def check_nest(self, worker, case, stats):
+        """nested tuples / lists / call arguments / builder conditions in statement contexts: the value the emitted Python
+        computes is the value of the source tree (a lost pair of parentheses flattens a tuple or regroups a condition)"""
+        stats.inc("nest")
+        t = worker.transpile1(case["src"], case["annotate"])
+        if "ok" not in t:
+            stats.inc("nest_rejected" if "err" in t else "nest_crash_left_to_C03")
+            if "err" in t:
+                stats.inc("nest_reject_reason:" + t["err"][0].split("\n")[0][:50])
+            return None
+        stats.inc("nest_accepted")
+        stats.inc("nest_ctx:" + case["ctx"])
+        py = t["ok"][0]
+        got = pyoracle.run_module(py, 20000)
+        if got.get("compile_error"):
+            stats.inc("nest_invalid_python_left_to_C02")
+            return None
+        stats.mark_nontrivial(case, key="nest-" + case["ctx"])
+        out = sorted(got["out"]) if case.get("sorted") else got["out"]
+        if got["exc"] is not None or out != case["expect"]:
+            return {"what": "nested expression (%s context) is grouped differently in the emitted Python: expected %s, got %s %s"
+                            % (case["ctx"], case["expect"], out, got["exc"] or ""), "python": py[-500:], "source": case["src"]}
+        return None
+
     def check(self, worker, case, stats):
+        if case["gen"] == "nest":
+            return self.check_nest(worker, case, stats)
         if case["gen"] == "e2e":
             return self.check_e2e(worker, case, stats)
         if case["gen"] == "enum":
